@@ -750,13 +750,22 @@ func checkResponse(c caseSpec, rm *requestModel, res *pluginResult) ([]finding, 
 							form = "other-service"
 						} else if strings.HasPrefix(got, "/"+s.FullName+"/") {
 							form = "other-method"
+						} else if sameButSeparators(got, wantPath) {
+							form = "separator-misplaced"
 						}
 					}
 					detail := fmt.Sprintf("kind=%s|form=%s", m.Kind, form)
-					if strings.HasPrefix(form, "other") || form == "not-a-literal" {
+					if c.Kind == "names" {
+						// what matters is how the names of the method, its service, its package and their siblings relate
+						detail += "|" + nameRelations(s, m)
+					} else if strings.HasPrefix(form, "other") || form == "not-a-literal" || form == "separator-misplaced" {
 						detail += fmt.Sprintf("|pkg=%s|naming=%s", c.Pkg, c.Naming)
 					}
-					add("path", detail, fmt.Sprintf("stub of %s/%s calls the channel with %s, want %q", s.FullName, m.Name, exprString(pathArg), wantPath))
+					what := fmt.Sprintf("stub of %s/%s calls the channel with %s, want %q", s.FullName, m.Name, exprString(pathArg), wantPath)
+					if c.Kind == "names" {
+						what += " (" + nameRelationsText(s, m) + ")"
+					}
+					add("path", detail, what)
 				}
 			}
 			// stream descriptor
